@@ -61,6 +61,7 @@ class ManualExecutor(Executor):
         self.wake = threading.Event()
         self.refuse = False
         self.future_class = RecFuture
+        self.drain_on_wait = False
 
     def submit(self, fn, *args, **kwargs):
         sched.point()  # a user-supplied delegate: its submit()/shutdown() are interleaving points
@@ -77,6 +78,12 @@ class ManualExecutor(Executor):
         sched.point()
         self.shutdowns.append((wait, kwargs))
         self.ev.add("delegate_shutdown", wait=wait, kwargs=kwargs)
+        if wait and self.drain_on_wait:
+            # like a real executor: shutdown(wait=True) returns once everything still queued has run
+            for f in list(self.submitted):
+                if not f.done() and not f.running():
+                    if self.run(f):
+                        self.ev.add("delegate_ran_on_shutdown", tag=f.tag)
 
     # helpers for scenarios ---------------------------------------------------
     def run(self, f):
